@@ -66,7 +66,10 @@ class ResolveStream(Stream):
         return {"pre": rng.choice(["nothing", "right", "empty", "one-block", "all-but-last", "other-file", "junk"]),
                 "with_hash": rng.random() < 0.8,
                 "fault": rng.choice([None, None, None, "error-status", "wrong-content", "not-found"]),
-                "served": rng.choice(["good", "good", "good", "unreadable"])}
+                "served": rng.choice(["good", "good", "good", "unreadable"]),
+                # the server compresses what it sends (nginx `gzip on` for application/octet-stream): a transfer encoding,
+                # the file is the same
+                "compressed": rng.random() < 0.3}
 
     def impl(self, case):
         from rv.core import digest
@@ -80,7 +83,8 @@ class ResolveStream(Stream):
         fn2, fn1 = B.wheel_name("foo", "2.0"), B.wheel_name("foo", "1.0")
         served2 = GOOD2 if case["served"] == "good" else JUNK
         # the index advertises the digest of what it serves
-        idx = B.FakeIndex("http://idx.example/simple", {"foo": {fn2: served2, fn1: GOOD1}}, with_hash=case["with_hash"])
+        idx = B.FakeIndex("http://idx.example/simple", {"foo": {fn2: served2, fn1: GOOD1}}, with_hash=case["with_hash"],
+                          compress=bool(case.get("compressed")))
         file_url = "http://idx.example/files/" + fn2
         if case["with_hash"]:
             file_url += "#sha256=" + hashlib.sha256(served2).hexdigest()
@@ -186,6 +190,8 @@ class ResolveStream(Stream):
             fl.append("unreadable-wheel")
         if not case["with_hash"]:
             fl.append("no-advertised-digest")
+        if case.get("compressed"):
+            fl.append("compressed-in-transit")
         fl.append("chosen:" + r.get("chosen", "?"))
         return fl
 
